@@ -72,9 +72,39 @@ def run(repo, run, tier):
     step_norm_freshness(repo, run)
     residual_bounds(repo, run)
     linear_solve_failures_surface(repo, run)
+    jacobian_layout(repo, run)
     # a finite-difference Jacobian kept between calls differentiates the residual of the call that built it (its additional_args): keyed by everything it depends on, or not kept
     from .common import memo_discipline
     memo_discipline(repo, run, "C15.9", [OPT, "desolver/utilities/utilities.py"], "the solver modules")
+
+
+def jacobian_layout(repo, run):
+    """a reported success means the iteration worked with the Jacobian of the residual: every solver flattens a user Jacobian given as a tensor (shape f.shape + x.shape)
+    to the matrix J[i, j] = dF_i/dx_j by ONE reshape to (fdim, xdim), rows = residual components.  Siblings must agree: a reshape to (xdim, fdim), or a transposition
+    after it, hands the dogleg J^T; on a non-symmetric system the trust region then shrinks below xtol far from any root, and the run ends as a 'success'."""
+    rid = run.rule("C15.10", "the tensor form of a user Jacobian is flattened by reshape(., (fdim, xdim)) with no transposition, in every solver alike (sibling agreement)", floor=3)
+    n = 0
+    for q in ("newtontrustregion", "hybrj", "nonlinear_roots"):
+        fn = repo.get(OPT, q)
+        for inner in [x for x in ast.walk(fn) if isinstance(x, ast.FunctionDef) and x.name == "fun_jac"]:
+            for st in [x for x in ast.walk(inner) if isinstance(x, (ast.Assign, ast.Return)) and x.value is not None]:
+                calls = [c for c in ast.walk(st.value) if isinstance(c, ast.Call) and fname(c) == "reshape" and len(c.args) == 2 and isinstance(c.args[1], ast.Tuple) and len(c.args[1].elts) == 2]
+                for c in calls:
+                    if not isinstance(c.args[0], ast.Call):       # role: reshape(<the user's Jacobian evaluated at the point>, (rows, columns))
+                        continue
+                    n += 1
+                    dims = [src(e) for e in c.args[1].elts]
+                    transposed = any((isinstance(y, ast.Attribute) and y.attr in ("T", "mT", "H")) or
+                                     (isinstance(y, ast.Call) and fname(y) in ("transpose", "swapaxes", "moveaxis", "permute", "einsum")) for y in ast.walk(st.value))
+                    ok = dims == ["fdim", "xdim"] and not transposed
+                    run.judged(rid, "%s.fun_jac: `%s`" % (q, src(st.value)[:90]), ok=ok)
+                    if not ok:
+                        run.report("C15.10", OPT, st, "%s flattens a tensor-shaped user Jacobian as `%s` (dims %s%s), not reshape(., (fdim, xdim)): the solver iterates with the transpose of "
+                                                      "the Jacobian; on a coupled non-symmetric system with a multi-dimensional unknown the gain ratios are poor, the trust region collapses "
+                                                      "below xtol and success is reported far from any root" % (q, src(st.value)[:80], dims, ", transposed" if transposed else ""),
+                                   text="%s: tensor Jacobian flattened as %s%s" % (q, dims, " transposed" if transposed else ""))
+    if n == 0:
+        raise AnalysisError("nonlinear solvers: the tensor-Jacobian branch of fun_jac was not found")
 
 
 # ------------------------------------------------------------------------------------------------
